@@ -189,3 +189,17 @@ Theorem C03_pb_luU_unique (K : fieldType) n (Wm : mx K) (L U : seq (mx K)) (Linv
   forall d, (d < D)%N -> mx_of n n (nth [::] (pb_luU n Wm L U LinvT0 Uinv0 Lbar Ubar) d) = mx_of n n Wm *m w3 d.
 Proof. exact: pb_luU_unique. Qed.
 Print Assumptions C03_pb_luU_unique.
+
+(* ---- reverse rule of the REDUCED QR of a tall matrix (m x n; _qr_rectangular_pullback with its STEP 6 for the part of Qbar outside the range
+   of Q): the adjoint for all tangents with Q^T dQ antisymmetric and dR upper triangular (MatPullbackQRTall.v) *)
+From AlgoV Require Import MatPullbackQRTall.
+Theorem C03_pb_qr_tall_adjoint (K : fieldType) (m n : nat) : (2%:R : K) != 0 ->
+  forall (Q Qbar dQ : 'M[K]_(m, n)) (R Ri Rbar dR : 'M[K]_n),
+  Q^T *m Q = 1%:M -> R *m Ri = 1%:M -> is_upper Ri ->
+  (Q^T *m dQ)^T = - (Q^T *m dQ) -> is_upper dR ->
+  let V := Qbar^T *m Q - R *m Rbar^T in
+  let Abar := Q *m (Rbar + tril1M (V^T - V) *m Ri^T) + (Qbar - Q *m (Q^T *m Qbar)) *m Ri^T in
+  let dA := dQ *m R + Q *m dR in
+  ip Qbar dQ + ip Rbar dR = ip Abar dA.
+Proof. exact: pb_qr_tall_adjoint. Qed.
+Print Assumptions C03_pb_qr_tall_adjoint.
